@@ -82,9 +82,9 @@ def stage_plain():
 # MIR dump with the repository's own toolchain
 # ------------------------------------------------------------------------------------------------
 MIR_CRATES = {
-    "main": (".", "mir_main.txt"),
-    "ser": ("locustdb-serialization", "mir_ser.txt"),
-    "cu": ("locustdb-compression-utils", "mir_cu.txt"),
+    "main": (".", "mir_main.txt", "locustdb"),
+    "ser": ("locustdb-serialization", "mir_ser.txt", "locustdb-serialization"),
+    "cu": ("locustdb-compression-utils", "mir_cu.txt", "locustdb-compression-utils"),
 }
 
 
@@ -94,22 +94,21 @@ def mir_dump(which=("main",)):
     out = {}
     with Lock("mir"):
         for w in which:
-            sub, fn = MIR_CRATES[w]
+            sub, fn, pkg = MIR_CRATES[w]
             path = os.path.join(SCRATCH, fn)
             stamp = path + ".hash"
             if os.path.exists(path) and os.path.exists(stamp) and open(stamp).read() == th and os.path.getsize(path) > 1000:
                 out[w] = path
                 continue
             t0 = time.time()
-            cwd = os.path.join(tree, sub)
+            cwd = tree      # always the workspace root: the path crates share the root Cargo.lock
             # touch the crate root so that cargo re-runs rustc even if only flags differ
-            for root in ("src/lib.rs",):
-                p = os.path.join(cwd, root)
-                if os.path.exists(p):
-                    os.utime(p, None)
+            p = os.path.join(tree, sub, "src/lib.rs")
+            if os.path.exists(p):
+                os.utime(p, None)
             env = dict(ENV)
             env["CARGO_TARGET_DIR"] = os.path.join(SCRATCH, "target-mir")
-            cmd = ["cargo", "+" + REPO_TOOLCHAIN, "rustc", "--offline", "--lib", "--",
+            cmd = ["cargo", "+" + REPO_TOOLCHAIN, "rustc", "--offline", "-p", pkg, "--lib", "--",
                    "-Zunpretty=mir", "-C", "overflow-checks=on", "-C", "debug-assertions=off"]
             with open(path + ".tmp", "w") as fo, open(path + ".err", "w") as fe:
                 r = subprocess.run(cmd, cwd=cwd, env=env, stdout=fo, stderr=fe)
@@ -155,6 +154,7 @@ INJECT = [
     ("native/column_buffer.rs", "src/mem_store/column_buffer.rs", "verif_nat_column_buffer", ("native",)),
     ("native/meta_store.rs", "src/disk_store/meta_store.rs", "verif_nat_meta_store", ("native",)),
     ("native/file_writer.rs", "src/disk_store/file_writer.rs", "verif_nat_file_writer", ("native",)),
+    ("native/api_roundtrip.rs", "src/lib.rs", "verif_nat_api_roundtrip", ("native",)),
 ]
 
 
